@@ -1,8 +1,24 @@
-/* C16: the launch/join logic of parallel_range / parallel_range_blocks itself (thread creation, thread_num assignment, join,
- * result) with std::thread MODELLED: a created thread runs to completion inside the constructor (one fixed schedule: thread
- * 0, then 1, ...); interleavings of the workers are covered by h_workers.c. A thread object destroyed while joinable reaches
- * std::terminate (as in the real library) = assertion failure, so "all workers are joined before the call returns" is checked.
- * To keep results schedule-independent (the native real build uses real threads) at most ONE callback returns true. */
+/* C16: the launch/join logic of parallel_range / parallel_range_blocks / parallel_range_blocks_multi itself (thread creation,
+ * thread_num assignment, join, result, merge of the per-thread sets) with std::thread MODELLED - generically:
+ *   - libstdc++'s std::thread constructor template is translated as it is (it packs callable + arguments into a heap
+ *     std::thread::_State_impl<...> with a virtual _M_run()); only the out-of-line library function
+ *     std::thread::_M_start_thread(unique_ptr<_State>, void(*)()) is modelled here: the thread object becomes joinable, the
+ *     state is taken out of the unique_ptr, its _M_run() is called through the vtable (the new thread runs at creation) and the
+ *     state is destroyed through its deleting destructor. Nothing here depends on the worker's name or parameter list.
+ *   - join() is modelled; destroying a joinable thread reaches std::terminate (real library code) = failure, so "all workers
+ *     are joined before the call returns" is checked.
+ *   - ROUNDS == 1: one fixed schedule (worker 1 runs to completion, then worker 2, ...). ROUNDS >= 2: bounded-round
+ *     sequentialisation (Lal-Reps) of the workers AND the launching thread over the atomic words the code uses (found by
+ *     address at their first atomic access): at every atomic operation the running thread may move to a later round
+ *     (harness input adv[thread][k]); every interleaving of the atomic operations with at most ROUNDS-1 context switches per
+ *     thread is one solver assignment. A new thread starts in the round of its creator, join() moves the caller to the last
+ *     round of the joined thread.
+ *   - data races on the result containers: the unordered_set shim reports every access (verif_shared_access); a started worker
+ *     counts as concurrent with every other thread until it has been joined; a write by one thread and any access by another
+ *     concurrent thread to the same set object is a failure.
+ * Native real build: real std::thread, real libstdc++ containers. The first callback of each thread waits (bounded) until
+ * min(T, #blocks) threads have arrived, so every worker demonstrably gets a block (thread numbers observable; simultaneous
+ * emplace calls for the ThreadSanitizer replay of race cells). Only schedule-independent values are observed. */
 #include "harness.h"
 int64_t w_parallel_range(uint64_t start, uint64_t end, uint64_t nthreads, uint64_t* out);
 int64_t w_parallel_range_blocks(uint64_t start, uint64_t end, uint64_t block, uint64_t nthreads, uint64_t* out);
@@ -10,82 +26,308 @@ int64_t w_parallel_range_multi(uint64_t start, uint64_t end, uint64_t block, uin
 #ifndef MULTI
 #define MULTI 0
 #endif
+#ifndef ROUNDS
+#define ROUNDS 1
+#endif
 #define START 5
+#define MAXOPS (3 * RANGE + 4) /* atomic operations per thread covered by the schedule table */
 #if BLK == 0
 static uint64_t blk_v; /* symbolic block size in [1,4] */
 #define BLKV blk_v
 #else
 #define BLKV ((uint64_t)BLK)
 #endif
-static uint32_t visits[RANGE + 1], oob, bad_thread, thread_seen[T + 1];
+static uint32_t visits[RANGE + 1], oob, bad_thread;
 static uint64_t hit; /* index of the single true value, or RANGE for none */
 static uint8_t truth[RANGE + 1]; /* MULTI: any subset of values may return true (the _multi variant never stops early) */
+static uint64_t guess_in[ROUNDS][2]; /* ROUNDS > 1: value of the i-th atomic word at the start of round r (constrained at the end) */
+static uint8_t adv[T + 1][MAXOPS]; /* ROUNDS > 1: round advance taken at the k-th atomic operation of thread t (0 = launcher) */
+
 #ifdef VERIF_NATIVE_REAL
+/* ---------------------------------------------------------------- real threads */
 #include <pthread.h>
 #include <time.h>
 static pthread_mutex_t mu = PTHREAD_MUTEX_INITIALIZER;
-#define LOCK() pthread_mutex_lock(&mu)
-#define UNLOCK() pthread_mutex_unlock(&mu)
-static uint32_t started = T, joined = T; /* real build: an unjoined std::thread terminates the process instead */
 static pthread_cond_t cv = PTHREAD_COND_INITIALIZER;
-static pthread_t seen_ids[T + 1];
-static uint32_t nseen;
-static uint32_t bad_tn; /* model-only observation; in the real build a wrong thread_num shows up in the callback (barrier below) */
-/* Real threads: the first callback of each thread waits (bounded) until T distinct threads have entered a callback, so that
-   every worker demonstrably gets a value when RANGE >= T and its thread_num becomes observable. */
-static void arrive(void) { /* mu held */
-  pthread_t me = pthread_self();
-  for (uint32_t i = 0; i < nseen; i++) if (pthread_equal(seen_ids[i], me)) return;
-  if (nseen < T) seen_ids[nseen] = me;
+static uint32_t started = T, joined = T; /* real build: an unjoined std::thread terminates the process instead */
+static uint32_t race_seen, race_over, ops_over, seq_over; /* model-only observations */
+static uint32_t nseen, target = T;
+static __thread int arrived;
+/* The barrier is the only place where the harness synchronises the workers: the bookkeeping below uses relaxed atomics, which
+ * order nothing (ThreadSanitizer derives no happens-before from them), so two workers that both leave the barrier and call
+ * emplace on one shared set are reported whatever the timing. */
+static void arrive(void) {
+  if (arrived) return;
+  arrived = 1;
+  pthread_mutex_lock(&mu);
   nseen++;
   pthread_cond_broadcast(&cv);
   struct timespec ts;
   clock_gettime(CLOCK_REALTIME, &ts);
   ts.tv_nsec += 300000000L;
   if (ts.tv_nsec >= 1000000000L) { ts.tv_sec++; ts.tv_nsec -= 1000000000L; }
-  while (nseen < T) if (pthread_cond_timedwait(&cv, &mu, &ts)) break;
+  while (nseen < target) if (pthread_cond_timedwait(&cv, &mu, &ts)) break;
+  pthread_mutex_unlock(&mu);
 }
-void verif_sched_point(void) {} /* no schedule control in this harness */
+#define COUNT(x) __atomic_fetch_add(&(x), 1, __ATOMIC_RELAXED)
+#define FLAG(x) __atomic_store_n(&(x), 1, __ATOMIC_RELAXED)
+#define CUT_CALLS()
+/* Replay of a counterexample of a K2 cell (ROUNDS > 1, not the race cells): wrap.cc instruments std::atomic so that every atomic
+ * operation first calls verif_sched_point(); a turn-based scheduler lets the real threads perform their atomic operations in
+ * the solver's order (round-major; within a round worker 1..T, then the launcher - the order in which the model runs them).
+ * Workers are numbered in the order of their first atomic operation (they are symmetric). The launcher only takes part while
+ * it waits at an atomic operation (while it is inside join() its slot is skipped after a grace period); a worker's exit is
+ * seen by a thread-specific destructor. If the real threads do not follow the plan (a thread never shows up), the scheduler
+ * switches itself off after 3 s and the threads run free. */
+extern int verif_replay_mode;
+static int sched_on;
+static __thread int me = -1; /* -1: not numbered yet; 0: launcher; w: worker */
+static uint32_t turn_round, turn_thread = 1, next_id = 1, r_ops[T + 1], r_round[T + 1], r_done[T + 1], r_waiting[T + 1];
+static struct timespec turn_since, sched_deadline;
+static pthread_key_t exit_key;
+static int64_t ms_since(const struct timespec* a) {
+  struct timespec n; clock_gettime(CLOCK_REALTIME, &n);
+  return (int64_t)(n.tv_sec - a->tv_sec) * 1000 + (n.tv_nsec - a->tv_nsec) / 1000000;
+}
+static void advance_turn(void) { /* mu held */
+  for (int guard = 0; guard < 4 * (T + 1) * (ROUNDS + 2); guard++) {
+    if (turn_thread == 0) { turn_thread = 1; turn_round++; } else if (turn_thread == T) turn_thread = 0; else turn_thread++;
+    if (!r_done[turn_thread]) break;
+  }
+  clock_gettime(CLOCK_REALTIME, &turn_since);
+  pthread_cond_broadcast(&cv);
+}
+static void on_thread_exit(void* v) {
+  int w = (int)(intptr_t)v - 1;
+  pthread_mutex_lock(&mu);
+  r_done[w] = 1;
+  if (turn_thread == (uint32_t)w) advance_turn();
+  pthread_cond_broadcast(&cv);
+  pthread_mutex_unlock(&mu);
+}
+/* The model numbers workers in creation order (their thread_num differs). Creation order of real threads = order of their
+ * kernel thread ids (Linux hands them out increasingly): the first T threads that show up are collected (up to 200 ms) and
+ * numbered by id; later ones get the following numbers in order of arrival. */
+#include <sys/syscall.h>
+#include <unistd.h>
+static long reg_tid[T];
+static uint32_t n_reg, reg_closed;
+static struct timespec reg_since;
+static int number_me(void) { /* mu held */
+  long tid = syscall(SYS_gettid);
+  if (reg_closed) return next_id <= T ? (int)next_id++ : -1;
+  if (n_reg == 0) clock_gettime(CLOCK_REALTIME, &reg_since);
+  reg_tid[n_reg++] = tid;
+  pthread_cond_broadcast(&cv);
+  while (!reg_closed && n_reg < T && ms_since(&reg_since) < 200) {
+    struct timespec ts; clock_gettime(CLOCK_REALTIME, &ts);
+    ts.tv_nsec += 10000000L;
+    if (ts.tv_nsec >= 1000000000L) { ts.tv_sec++; ts.tv_nsec -= 1000000000L; }
+    pthread_cond_timedwait(&cv, &mu, &ts);
+  }
+  if (!reg_closed) { reg_closed = 1; next_id = n_reg + 1; clock_gettime(CLOCK_REALTIME, &turn_since); pthread_cond_broadcast(&cv); }
+  int rank = 1;
+  for (uint32_t i = 0; i < n_reg; i++) if (reg_tid[i] < tid) rank++;
+  return rank;
+}
+void verif_sched_point(void) {
+  if (!__atomic_load_n(&sched_on, __ATOMIC_RELAXED)) return;
+  pthread_mutex_lock(&mu);
+  if (me < 0) { /* first atomic operation of a new thread: number it */
+    me = number_me();
+    if (me < 0) { me = -2; pthread_mutex_unlock(&mu); return; } /* more threads than the plan knows: runs free */
+    pthread_setspecific(exit_key, (void*)(intptr_t)(me + 1));
+  } else if (me == -2) { pthread_mutex_unlock(&mu); return; }
+  uint32_t k = r_ops[me]++;
+  uint32_t want = r_round[me] + (k < MAXOPS ? adv[me][k] : 0);
+  r_round[me] = want;
+  r_waiting[me] = 1;
+  while (sched_on) {
+    if (turn_thread == (uint32_t)me) {
+      if (turn_round >= want) break;
+      advance_turn(); /* my next operation belongs to a later round: let the others run */
+      continue;
+    }
+    if (turn_thread == 0 && !r_waiting[0] && ms_since(&turn_since) >= 50) { advance_turn(); continue; } /* launcher is busy elsewhere (join) */
+    if (ms_since(&sched_deadline) >= 0) { sched_on = 0; pthread_cond_broadcast(&cv); break; }
+    struct timespec ts; clock_gettime(CLOCK_REALTIME, &ts);
+    ts.tv_nsec += 20000000L;
+    if (ts.tv_nsec >= 1000000000L) { ts.tv_sec++; ts.tv_nsec -= 1000000000L; }
+    pthread_cond_timedwait(&cv, &mu, &ts);
+  }
+  r_waiting[me] = 0;
+  pthread_mutex_unlock(&mu);
+}
+static void sched_start(void) {
+#if ROUNDS > 1 && !defined(ONE_EACH)
+  if (!verif_replay_mode) return;
+  pthread_key_create(&exit_key, on_thread_exit);
+  me = 0;
+  clock_gettime(CLOCK_REALTIME, &sched_deadline); sched_deadline.tv_sec += 3;
+  clock_gettime(CLOCK_REALTIME, &turn_since);
+  target = 0; /* no barrier: the schedule decides who runs */
+  sched_on = 1;
+#endif
+}
+static void model_end(void) { __atomic_store_n(&sched_on, 0, __ATOMIC_RELAXED); }
 uint64_t _ZN5phosg3nowEv(void) { return 0; } /* phosg::now(): only reached when a progress function is given */
 #else
-#define LOCK()
-#define UNLOCK()
-#define arrive()
+/* ---------------------------------------------------------------- model (CBMC and native generated C) */
 #include "verif_rt.h"
-static uint32_t started, joined, bad_tn;
-/* std::thread model: the constructor instantiations std::thread::thread(F&, reference_wrapper..., end, thread_num) are cut
- * out of the translation (unit config cuts=) and provided here: the new thread runs to completion immediately.
- * reference_wrapper<T> is { T* }. */
-void X__ZNSt6threadC2IRFvRSt8functionIFbmmEERSt6atomicImES7_mmEJSt17reference_wrapperIS3_ESA_IS6_ESC_RmmEvEEOT_DpOT0_(
-    uint8_t* self, uint8_t* f, uint8_t* rw_fn, uint8_t* rw_cur, uint8_t* rw_res, uint8_t* end, uint8_t* tn) {
-  started++;
-  *(uint64_t*)self = started; /* joinable */
-  if (*(uint64_t*)tn >= T) bad_tn = 1;
-  ((void (*)(uint8_t*, uint8_t*, uint8_t*, uint64_t, uint64_t))f)(*(uint8_t**)rw_fn, *(uint8_t**)rw_cur, *(uint8_t**)rw_res, *(uint64_t*)end, *(uint64_t*)tn);
+#define MASSERT(c, msg) __CPROVER_assert((c), "H: " msg) /* model-internal check: silent in native runs unless it fails */
+#define arrive()
+#define COUNT(x) ((x)++)
+#define FLAG(x) ((x) = 1)
+#define MAXW 4 /* threads the model can number (bit masks below) */
+static uint32_t started, joined, cur; /* cur: the running thread, 0 = launcher, w = the w-th started thread */
+static uint32_t live; /* bit w: thread w has been started and not yet joined */
+static uint32_t calls[MAXW + 1];
+
+/* -- atomics: every atomic load/store/rmw of the translated code goes through verif_atomic_addr() (unit gen_defs VERIF_ATOMIC_HOOK) */
+#ifdef VERIF_CBMC
+#define NROUNDS ROUNDS
+#else
+#define NROUNDS 1 /* native generated C (translation validation): one thread after the other */
+#endif
+#define NVARS 2 /* cursor, result */
+static uint8_t* seq_var[NVARS];
+static uint64_t seq_copy[NROUNDS][NVARS], seq_guess[NROUNDS][NVARS];
+static uint32_t seq_nvars, seq_round, seq_ops, seq_over, ops_over, last_round[MAXW + 1];
+uint8_t* verif_atomic_addr(uint8_t* p) {
+#if NROUNDS > 1
+  uint32_t k = seq_ops++;
+  if (k >= MAXOPS) ops_over = 1;
+  uint32_t a = k < MAXOPS ? adv[cur][k] : 0;
+  ASSUME(seq_round + a < NROUNDS);
+  seq_round += a;
+#endif
+  for (int i = 0; i < NVARS; i++)
+    if (i < (int)seq_nvars && p == seq_var[i]) return (uint8_t*)&seq_copy[seq_round][i];
+  if (seq_nvars >= NVARS) { seq_over = 1; return p; }
+  int i = (int)seq_nvars++;
+  seq_var[i] = p;
+  seq_copy[0][i] = *(uint64_t*)p; /* value before the first atomic access; later rounds start from guesses */
+  for (int r = 1; r < NROUNDS; r++) {
+    uint64_t g = guess_in[r][i];
+#ifdef ONE_EACH
+    if (i == 0) g = START + RANGE; /* schedule cell, see read_schedule() */
+#endif
+    seq_copy[r][i] = seq_guess[r][i] = g;
+  }
+  return (uint8_t*)&seq_copy[seq_round][i];
 }
-void X__ZNSt6threadC2IRFvRSt8functionIFbmmEERSt6atomicImES7_mmmEJSt17reference_wrapperIS3_ESA_IS6_ESC_RmSD_mEvEEOT_DpOT0_(
-    uint8_t* self, uint8_t* f, uint8_t* rw_fn, uint8_t* rw_cur, uint8_t* rw_res, uint8_t* end, uint8_t* blk, uint8_t* tn) {
-  started++;
-  *(uint64_t*)self = started;
-  if (*(uint64_t*)tn >= T) bad_tn = 1;
-  ((void (*)(uint8_t*, uint8_t*, uint8_t*, uint64_t, uint64_t, uint64_t))f)(*(uint8_t**)rw_fn, *(uint8_t**)rw_cur, *(uint8_t**)rw_res, *(uint64_t*)end, *(uint64_t*)blk, *(uint64_t*)tn);
+/* end of the run: keep only executions whose guesses were right (round r+1 starts where round r ended) */
+static void model_end(void) {
+  for (int i = 0; i < NVARS; i++)
+    for (int r = 0; r + 1 < NROUNDS; r++)
+      if (i < (int)seq_nvars) ASSUME(seq_copy[r][i] == seq_guess[r + 1][i]);
 }
+#if NROUNDS > 1
+/* Guesses are only constrained at the end; executions built on inconsistent guesses would trip unwinding assertions. They are
+ * cut here: no thread makes more than RANGE+1 callbacks in the executions considered (a tree in which EVERY execution exceeds
+ * this makes the query vacuous, which is reported). */
+#define CUT_CALLS() do { calls[cur]++; ASSUME(calls[cur] <= RANGE + 1); } while (0)
+#else
+#define CUT_CALLS()
+#endif
+
+/* -- std::thread */
+void X__ZNSt6thread15_M_start_threadESt10unique_ptrINS_6_StateESt14default_deleteIS1_EEPFvvE(uint8_t* self, uint8_t* up, uint8_t* depend) {
+  (void)depend;
+  uint8_t* st = *(uint8_t**)up; /* unique_ptr<_State> is { _State* }: take the state out (the caller's unique_ptr is left empty) */
+  *(uint8_t**)up = 0;
+  MASSERT(st != 0, "std::thread is started with a state object");
+  MASSERT(started < MAXW, "BOUND: more threads started than the model numbers");
+  ASSUME(started < MAXW);
+  started++;
+  *(uint64_t*)self = started; /* std::thread is { id { native handle } }: non-zero = joinable */
+  live |= 1u << started;
+  uint32_t prev = cur, prev_ops = seq_ops, prev_round = seq_round; /* the new thread starts in the creator's round */
+  cur = started; seq_ops = 0;
+  uint8_t** vt = *(uint8_t***)st; /* Itanium ABI: [0] complete destructor, [1] deleting destructor, [2] _M_run */
+  ((void (*)(uint8_t*))vt[2])(st);
+  MASSERT(!verif_exc_active, "no exception leaves a thread function (std::terminate)");
+  last_round[cur] = seq_round;
+  cur = prev; seq_ops = prev_ops; seq_round = prev_round; /* the creator continues where it was */
+  ((void (*)(uint8_t*))vt[1])(st); /* the thread's state dies with the thread */
+}
+void X__ZNSt6thread6_StateD2Ev(uint8_t* self) { (void)self; } /* std::thread::_State::~_State(): out of line in the library, empty */
 void X__ZNSt6thread4joinEv(uint8_t* self) {
-  if (*(uint64_t*)self == 0) ASSERT(0, "join() on a joinable thread only");
+  uint64_t w = *(uint64_t*)self;
+  if (w == 0 || w > MAXW) { MASSERT(0, "join() on a joinable thread only"); return; }
   *(uint64_t*)self = 0;
   joined++;
+  live &= ~(1u << w);
+  if (seq_round < last_round[w]) seq_round = last_round[w]; /* everything the joined thread did happens before what follows */
 }
 uint32_t X__ZNSt6thread20hardware_concurrencyEv(void) { return 2; }
 uint64_t X__ZN5phosg3nowEv(void) { return 0; }
 uint32_t X_usleep(uint32_t us) { (void)us; return 0; }
+
+/* -- data races on containers (engine/shim/unordered_set compiled with -DVERIF_RACE_HOOK): kind 0 = read, 1 = write,
+ * 2 = destruction. Accesses of a joined thread happen before everything the joiner does afterwards; accesses of the launcher
+ * made while no started thread is alive are ordered with everything. */
+#define NOBJ 6
+static uint8_t* r_obj[NOBJ];
+static uint32_t r_acc[NOBJ], r_wr[NOBJ], r_n, race_seen, race_over;
+void X_verif_shared_access(uint8_t* obj, uint32_t kind) {
+  if (!live) return;
+  uint32_t me = 1u << cur, others = live & ~me;
+  if (cur == 0) me = 0; /* the launcher's accesses are checked against the live workers' recorded ones, not recorded */
+  int found = 0;
+  for (int i = 0; i < NOBJ; i++)
+    if (i < (int)r_n && r_obj[i] == obj) {
+      found = 1;
+      if ((r_wr[i] & others) || (kind && (r_acc[i] & others))) race_seen = 1;
+      r_acc[i] |= me;
+      if (kind) r_wr[i] |= me;
+    }
+  if (!found && me) {
+    if (r_n < NOBJ) { r_obj[r_n] = obj; r_acc[r_n] = me; r_wr[r_n] = kind ? me : 0; r_n++; }
+    else race_over = 1;
+  }
+}
 #endif
+
 uint8_t STUB(verif_cb)(uint64_t v, uint64_t t) {
-  LOCK();
+  CUT_CALLS();
   arrive();
-  if (v >= START && v < START + RANGE) visits[v - START]++; else oob = 1;
-  if (t >= T) bad_thread = 1; else thread_seen[t] = 1;
-  UNLOCK();
+  if (v >= START && v < START + RANGE) COUNT(visits[v - START]); else FLAG(oob);
+  if (t >= T) FLAG(bad_thread);
   return MULTI ? ((v >= START && v < START + RANGE) ? truth[v - START] : 0) : (v == START + hit);
+}
+
+static void read_schedule(void) {
+#if ROUNDS > 1
+  for (int t = 0; t <= T; t++) for (int k = 0; k < MAXOPS; k++) {
+    adv[t][k] = (uint8_t)in_range(0, ROUNDS - 1);
+#ifdef ONE_EACH
+    /* schedule cell "one block each" (ROUNDS == 2, #blocks == T): ONE concrete schedule instead of all of them - every worker
+       performs exactly its first atomic operation (its first claim) in round 0 and everything else in round 1, and the first
+       atomic word the workers touch (the cursor) is at end_value when round 1 starts, i.e. workers 1..T claim blocks 1..T, then
+       all of them run their callbacks. All values stay concrete (cheap); only the launcher's position is symbolic. A tree in
+       which this schedule does not exist makes the query vacuous, which is reported. */
+    if (t) adv[t][k] = (k == 1);
+#endif
+  }
+#endif
+#if ROUNDS > 1
+  for (int r = 1; r < ROUNDS; r++) for (int i = 0; i < 2; i++) guess_in[r][i] = in_u64();
+#endif
+#ifdef VERIF_NATIVE_REAL
+  uint64_t nblocks = BLOCKS ? ((RANGE % BLKV) ? 0 : RANGE / BLKV) : RANGE;
+  target = nblocks < T ? (uint32_t)nblocks : T;
+  sched_start();
+#endif
+}
+static void common_checks(void) {
+  ASSERT(!seq_over, "BOUND: the code uses more atomic words than the model tracks");
+  ASSERT(!ops_over, "BOUND: atomic operations per thread within the schedule table");
+  ASSERT(joined == started && started <= T, "every started worker is joined before the call returns (and no more than num_threads are started)");
+  ASSERT(!oob, "callback never invoked outside [start,end)");
+  ASSERT(!bad_thread, "thread numbers lie in [0,num_threads)");
+  ASSERT(!race_over, "BOUND: container objects tracked by the race check");
+  ASSERT(!race_seen, "no data race on the result containers");
 }
 #if MULTI
 void harness(void) {
@@ -93,8 +335,10 @@ void harness(void) {
 #if BLK == 0
   blk_v = in_range(1, 4);
 #endif
+  read_schedule();
   uint64_t out[RANGE + 1];
   int64_t rc = w_parallel_range_multi(START, START + RANGE, BLKV, T, out, RANGE + 1);
+  model_end();
   OBS(rc);
   if (RANGE % BLKV) { /* documented precondition violated: the call must refuse (logic_error) without visiting anything */
     ASSERT(rc == -4, "block size not dividing the range is rejected with logic_error");
@@ -102,9 +346,7 @@ void harness(void) {
     ASSERT(!oob, "callback never invoked outside [start,end)");
     return;
   }
-  ASSERT(joined == started && started <= T, "every started worker is joined before the call returns (and no more than num_threads are started)");
-  ASSERT(!oob, "callback never invoked outside [start,end)");
-  ASSERT(!bad_thread && !bad_tn, "thread numbers lie in [0,num_threads)");
+  common_checks();
   for (int i = 0; i < RANGE; i++) ASSERT(visits[i] == 1, "_multi never stops early: every value visited exactly once");
   uint64_t n = 0;
   for (int i = 0; i < RANGE; i++) if (truth[i]) n++;
@@ -120,8 +362,10 @@ void harness(void) {
 #if BLK == 0
   blk_v = in_range(1, 4);
 #endif
+  read_schedule();
   uint64_t out = 0;
   int64_t rc = BLOCKS ? w_parallel_range_blocks(START, START + RANGE, BLKV, T, &out) : w_parallel_range(START, START + RANGE, T, &out);
+  model_end();
   OBS(rc); OBS(out);
   if (BLOCKS && (RANGE % BLKV)) { /* documented precondition violated: the call must refuse (logic_error) without visiting anything */
     ASSERT(rc == -4, "block size not dividing the range is rejected with logic_error");
@@ -130,9 +374,7 @@ void harness(void) {
     return;
   }
   ASSERT(rc == 0, "parallel_range does not throw for a valid range / block size / thread count");
-  ASSERT(joined == started && started <= T, "every started worker is joined before the call returns (and no more than num_threads are started)");
-  ASSERT(!oob, "callback never invoked outside [start,end)");
-  ASSERT(!bad_thread && !bad_tn, "thread numbers lie in [0,num_threads)");
+  common_checks();
   for (int i = 0; i < RANGE; i++) ASSERT(visits[i] <= 1, "no value is visited twice");
   if (hit == RANGE) {
     ASSERT(out == START + RANGE, "no hit: returns end_value");
